@@ -69,9 +69,13 @@ theorem consult_spec (cfg : Cfg) (H : Hashes) (s : State) (p : Prompt) (zr yr : 
   unfold consult
   cases zr with
   | exc => simp [applyKind, callExecutor]
+  | excU => simp [applyKind, callExecutor]
+  | excB => simp [applyKind, callExecutor]
   | ret z =>
     cases yr with
     | exc => simp [applyKind, callExecutor, callAssessor]
+    | excU => simp [applyKind, callExecutor, callAssessor]
+    | excB => simp [applyKind, callExecutor, callAssessor]
     | ret y =>
       cases hp : p.enc <;> cases hc : cfg.cacheOn <;> simp [applyKind, callExecutor, callAssessor]
 
@@ -125,16 +129,25 @@ def consultOut (cfg : Cfg) (H : Hashes) (p : Prompt) : Resp → Resp → Out
       ⟨.gated (classifyRun (gateResult H cfg.gate p z y).success (gateResult H cfg.gate p z y).blocked z y),
        some (gateResult H cfg.gate p z y)⟩
     else ⟨.raised, none⟩
-  | _, _ => ⟨.agentExc, some errorResult⟩
+  | .exc, _ => ⟨.agentExc, some errorResult⟩
+  | .excU, _ => ⟨.agentExc, none⟩
+  | .excB, _ => ⟨.aborted, none⟩
+  | .ret _, .exc => ⟨.agentExc, some errorResult⟩
+  | .ret _, .excU => ⟨.agentExc, none⟩
+  | .ret _, .excB => ⟨.aborted, none⟩
 
 theorem consult_out (cfg : Cfg) (H : Hashes) (s : State) (p : Prompt) (zr yr : Resp) :
     (consult cfg H s p zr yr).2 = consultOut cfg H p zr yr := by
   unfold consult consultOut
   cases zr with
   | exc => simp
+  | excU => simp
+  | excB => simp
   | ret z =>
     cases yr with
     | exc => simp
+    | excU => simp
+    | excB => simp
     | ret y => cases hp : p.enc <;> cases hc : cfg.cacheOn <;> simp
 
 /-- the cache after consulting: unchanged, or the new gate result stored -/
@@ -145,9 +158,13 @@ theorem consult_cache (cfg : Cfg) (H : Hashes) (s : State) (p : Prompt) (zr yr :
   unfold consult
   cases zr with
   | exc => simp [callExecutor]
+  | excU => simp [callExecutor]
+  | excB => simp [callExecutor]
   | ret z =>
     cases yr with
     | exc => simp [callExecutor, callAssessor]
+    | excU => simp [callExecutor, callAssessor]
+    | excB => simp [callExecutor, callAssessor]
     | ret y => cases hp : p.enc <;> cases hc : cfg.cacheOn <;> simp [callExecutor, callAssessor]
 
 theorem cacheFind_some {k : Nat} {c : List Entry} {e : Entry} (h : cacheFind k c = some e) : e ∈ c ∧ e.key = k := by
